@@ -208,7 +208,7 @@ def crash_scenario(tid, root, setup, op, reader, units=(), views=(), frame=(), u
         structural = {e["k"] for e in rec.events if e["op"] not in ("write", "open", "close", "ftruncate", "chmod")}
         ks = sorted({ks[int(j * step)] for j in range(max_cuts)} | {1, rec.n_mut} | structural)
     write_ks = {e["k"] for e in rec.events if e["op"] == "write"}
-    plan = [("cut", k, False) for k in ks] + [("cut-half", k, True) for k in ks if k in write_ks and (not max_cuts or k % 7 == 0)]
+    plan = [("cut", k, False) for k in ks] + [("cut-half", k, True) for k in ks if k in write_ks and k % (7 if max_cuts else 2) == 0]
     plan += [("unseen", j, False) for j in range(1, n_unseen + 1)]
     for kind, k, half in plan:
         fresh(root, setup)
@@ -412,6 +412,7 @@ def run(ck):
     ck.rule = ("scenario shapes exported by TLC (repo x op x category-exists x bystander x stale leftovers) instantiated with random built "
                "packages; EVERY mutation of the operation is a crash point (+ half writes, + a cut inside the tarball writer); "
                "non-trivial = distinct (shape, crash point) whose operation changes the fresh reader's view")
+    ck.exhaustive = not ck.quick and not ck.replay_case  # every exported shape x every mutation (+ half of every second write)
     ck.assumptions = ["a power cut is a stop before a Python-level mutation (or after half a write); no fsync/reordering model",
                       "the tarball writer (bz2 stream / child process) is observed through before/after snapshots",
                       "binpkg replace of a different version is carved out (both files legitimately stay)"]
